@@ -209,7 +209,7 @@ class EvalScn:
         """events of conc children (obsC / note) may come in any order: sort each maximal run"""
         out, run = [], []
         for ev in tr or []:
-            if ev.get("fn") in ("obsC", "note"):
+            if ev.get("fn") in ("obsC", "note", "mark"):
                 run.append(json.dumps(ev, sort_keys=True))
             else:
                 out.extend(sorted(run)); run = []
@@ -519,7 +519,7 @@ class PoolScn:
                 if pr.get("results") or not pr.get("err"):
                     add("leak", "impl-vs-spec", "request %s injected nothing and ran rules reading q: results %s err %r" % (pr.get("id"), pr.get("results"), pr.get("err")))
             if c.get("mutated"):
-                add("mutated", "impl-vs-spec", "a result map handed back to a caller changed after later requests")
+                add("mutated", "impl-vs-spec", "a result map handed back to a caller changed after later requests. %s" % (c.get("note") or ""))
         return issues
 
     @staticmethod
